@@ -460,7 +460,15 @@ fn build_history(mode: &str, steps: &[&str]) -> String {
     let src_dir = base.join("src");
     // values of OUT_DIR: plain, with a trailing slash, with spaces/dots/non-ASCII in the directory name,
     // relative to the current directory, and unset (the current directory is used)
-    let out_dir = if mode.ends_with("-space") { base.join("out dir.v1 \u{e9}") } else { base.join("out") };
+    let out_dir = if mode.ends_with("-space") {
+        base.join("out dir.v1 \u{e9}")
+    } else if mode.ends_with("-nonutf8") {
+        // a directory name that is not valid UTF-8 (legal on this platform): OUT_DIR is an OsString, not a String
+        use std::os::unix::ffi::OsStrExt;
+        base.join(std::ffi::OsStr::from_bytes(b"out-\xff\xfe.d"))
+    } else {
+        base.join("out")
+    };
     std::fs::create_dir_all(&src_dir).unwrap();
     std::fs::create_dir_all(&out_dir).unwrap();
     let old_cwd = std::env::current_dir().ok();
